@@ -177,6 +177,9 @@ pub fn run(ctx: &mut Ctx) {
                 // the timestamp result exists but rounds past the last second, or does not exist: the oracle date must fail
                 (Err(()), Ok(t)) => { if t.rem_euclid(US_SEC) * 2 >= US_SEC && t > refmodel::ranges::OD_MAX as i64 { acc.cls("rounds_past_range") } else {
                     acc.fail("C17:add_days:oracle-date-fails-where-timestamp-result-exists", idx, || (format!("OracleDate({o}) {} {f:?} days", if sub { "-" } else { "+" }), format!("Ok (timestamp result {t})"), "Err".into(), String::new())) } }
+                // the exact sum lies less than half a second before the first instant: it is not a timestamp, but its
+                // nearest second is the first Oracle-style date; either answer corresponds (C16 decides the rounding)
+                (Ok(x), Err(())) if x as i128 == refmodel::ranges::OD_MIN => acc.cls("edge_rounds_into_range"),
                 (Ok(x), Err(())) => acc.fail("C17:add_days:oracle-date-succeeds-where-timestamp-fails", idx, || (format!("OracleDate({o}) {} {f:?} days", if sub { "-" } else { "+" }), "Err".into(), format!("Ok({x})"), String::new())),
             }
         }
